@@ -38,7 +38,9 @@ impl builtins::Command for FgCommand {
                     writeln!(context.stderr(), "\r{formatted}")?;
                 }
 
-                Ok(result)
+                // N.B. Only the job's status comes back; its `exit` or `return` is not ours to
+                // carry out.
+                Ok(ExecutionResult::from(result.exit_code))
             } else {
                 writeln!(
                     stderr,
@@ -63,7 +65,9 @@ impl builtins::Command for FgCommand {
                     writeln!(context.stderr(), "\r{formatted}")?;
                 }
 
-                Ok(result)
+                // N.B. Only the job's status comes back; its `exit` or `return` is not ours to
+                // carry out.
+                Ok(ExecutionResult::from(result.exit_code))
             } else {
                 writeln!(stderr, "{}: no current job", context.command_name)?;
                 Ok(ExecutionResult::general_error())
